@@ -3,6 +3,7 @@ package main
 // C13 — obfs3 and UniformDH (DESIGN 4, C13).
 
 import (
+	"go/types"
 	"fmt"
 	"go/token"
 	"strings"
@@ -64,15 +65,17 @@ func c13UniformDH(c *Ctx, p *Prog) {
 	fills := p.CallsIn(gk, "(*math/big.Int).FillBytes")
 	subs := p.CallsIn(gk, "(*math/big.Int).Sub")
 	switch {
-	case len(exps) != 1 || len(setbits) != 1 || len(subs) != 1 || len(fills) != 2:
-		bad = fmt.Sprintf("%d Exp, %d SetBit, %d Sub, %d FillBytes calls; expected 1,1,1,2", len(exps), len(setbits), len(subs), len(fills))
+	case len(exps) != 1 || len(setbits) != 1 || len(subs) != 1 || len(fills) < 1 || len(fills) > 2:
+		bad = fmt.Sprintf("%d Exp, %d SetBit, %d Sub, %d FillBytes calls; expected 1,1,1 and 1 or 2", len(exps), len(setbits), len(subs), len(fills))
 	default:
 		exp, sb, sub := exps[0].(*ssa.Call), setbits[0].(*ssa.Call), subs[0].(*ssa.Call)
+		// big.Int methods return their receiver: compare objects, not call results
+		expObj, subObj, sbObj := bigObj(p, exp), bigObj(p, sub), bigObj(p, sb)
 		ea := exp.Common().Args // recv, base, exponent, modulus
 		if !isGlobalLoadMod(ea[1], "gen") || !isGlobalLoadMod(ea[3], "modpGroup") {
 			bad = "the exponentiation is not gen^x mod modpGroup"
 		}
-		if unspill(ea[2]) != ssa.Value(sb) {
+		if bigObj(p, ea[2]) != sbObj || !instrDominates(sb, exp) {
 			bad = "the exponent is not the value with bit 0 cleared"
 		}
 		sa := sb.Common().Args // recv, x, i, b
@@ -82,40 +85,98 @@ func c13UniformDH(c *Ctx, p *Prog) {
 		if b, _ := intConst(sa[3]); b != 0 {
 			bad = "SetBit does not clear the bit"
 		}
+		if bigObj(p, sa[1]) != sbObj {
+			bad = "SetBit does not clear the bit of the exponent itself"
+		}
 		sua := sub.Common().Args
-		if !isGlobalLoadMod(sua[1], "modpGroup") || unspill(sua[2]) != ssa.Value(exp) {
+		if !isGlobalLoadMod(sua[1], "modpGroup") || bigObj(p, sua[2]) != expObj {
 			bad = "the alternative public value is not modpGroup - X"
 		}
-		// the coin: Bit(priv, 0) == 0 evaluated BEFORE the bit is cleared
+		// the coin: bit 0 of the random exponent as drawn — Bit(x, 0) read BEFORE the bit is
+		// cleared, or the low bit of the last (least significant, big-endian) byte of the
+		// random bytes x was built from
 		ff := p.Facts(gk)
 		var bit *ssa.Call
 		for _, bc := range p.CallsIn(gk, "(*math/big.Int).Bit") {
-			bit = bc.(*ssa.Call)
+			if k, _ := intConst(bc.Common().Args[1]); k == 0 && bigObj(p, bc.Common().Args[0]) == sbObj && instrDominates(bc, sb) {
+				bit = bc.(*ssa.Call)
+			}
 		}
-		if bit == nil || !instrDominates(bit, sb) {
+		var rawBytes ssa.Value // the buffer x was loaded from
+		for _, sbc := range p.CallsIn(gk, "(*math/big.Int).SetBytes") {
+			if bigObj(p, sbc.Common().Args[0]) == sbObj {
+				rawBytes = sbc.Common().Args[1]
+			}
+		}
+		isCoin := func(v ssa.Value) bool {
+			v = unspill(v)
+			if bit != nil && v == ssa.Value(bit) {
+				return true
+			}
+			and, ok := v.(*ssa.BinOp)
+			if !ok || and.Op != token.AND || rawBytes == nil {
+				return false
+			}
+			if k, _ := intConst(and.Y); k != 1 {
+				return false
+			}
+			ld, ok := unspill(and.X).(*ssa.UnOp)
+			if !ok || ld.Op != token.MUL {
+				return false
+			}
+			ia, ok := ld.X.(*ssa.IndexAddr)
+			if !ok || bufObjKey(ia.X) != bufObjKey(rawBytes) {
+				return false
+			}
+			k, okk := intConst(ia.Index)
+			return okk && k == 191
+		}
+		// parity known from a set of facts: +1 even, -1 odd, 0 unknown
+		parity := func(fs []Fact) int {
+			for _, fct := range fs {
+				bo, ok := fct.Cond.(*ssa.BinOp)
+				if !ok || !isCoin(bo.X) || (bo.Op != token.EQL && bo.Op != token.NEQ) {
+					continue
+				}
+				k, okk := intConst(bo.Y)
+				if !okk || (k != 0 && k != 1) {
+					continue
+				}
+				isZero := (bo.Op == token.EQL) == (k == 0) // condition true means bit == 0
+				if isZero == fct.Pol {
+					return 1
+				}
+				return -1
+			}
+			return 0
+		}
+		checkSel := func(par int, recv ssa.Value, where string) {
+			switch {
+			case par > 0 && bigObj(p, recv) != expObj:
+				bad = "an even exponent does not send X (" + where + ")"
+			case par < 0 && bigObj(p, recv) != subObj:
+				bad = "an odd exponent does not send p-X (" + where + ")"
+			case par == 0:
+				bad = "what is serialised at " + where + " is not selected by the parity coin"
+			}
+		}
+		if bit == nil && rawBytes == nil {
 			bad = "the parity coin is not read before the bit is cleared"
 		}
 		for _, fc := range fills {
 			f := fc.(*ssa.Call)
-			even := false
-			odd := false
-			for _, fct := range ff.NC(f.Block()) {
-				bo, ok := fct.Cond.(*ssa.BinOp)
-				if !ok || unspill(bo.X) != ssa.Value(bit) {
-					continue
+			recv := f.Common().Args[0]
+			if ph, isPhi := recv.(*ssa.Phi); isPhi && phiAlias(ph) == nil {
+				for i, e := range ph.Edges {
+					pred := ph.Block().Preds[i]
+					fs := append([]Fact{}, ff.NC(pred)...)
+					if ef, ok := edgeFact(pred, ph.Block()); ok {
+						fs = append(fs, ef)
+					}
+					checkSel(parity(fs), e, p.InstrPos(f))
 				}
-				if k, _ := intConst(bo.Y); k == 0 && bo.Op == token.EQL {
-					even, odd = fct.Pol, !fct.Pol
-				}
-			}
-			recv := unspill(f.Common().Args[0])
-			switch {
-			case even && recv != ssa.Value(exp):
-				bad = "an even exponent does not send X"
-			case odd && recv != ssa.Value(sub):
-				bad = "an odd exponent does not send p-X"
-			case !even && !odd:
-				bad = "FillBytes at " + p.InstrPos(f) + " is not selected by the parity coin"
+			} else {
+				checkSel(parity(ff.NC(f.Block())), recv, p.InstrPos(f))
 			}
 			if l := bufLenTerm(p, p.newTermer(), f.Common().Args[1]); l != "192" {
 				bad = "the public key buffer is " + l + " bytes, expected 192"
@@ -123,17 +184,26 @@ func c13UniformDH(c *Ctx, p *Prog) {
 		}
 		// bytes field = that buffer; publicKey field = X; privateKey field = even exponent
 		for _, s := range p.Stores("common/uniformdh.PublicKey", "bytes") {
-			if s.Fn == gk && bufObjKey(s.Val) != bufObjKey(fills[0].Common().Args[1]) {
+			if s.Fn != gk {
+				continue
+			}
+			okB := false
+			for _, fc := range fills {
+				if bufObjKey(s.Val) == bufObjKey(fc.Common().Args[1]) || unspill(s.Val) == ssa.Value(fc.(*ssa.Call)) {
+					okB = true
+				}
+			}
+			if !okB {
 				bad = "PublicKey.bytes is not the buffer FillBytes filled"
 			}
 		}
 		for _, s := range p.Stores("common/uniformdh.PublicKey", "publicKey") {
-			if s.Fn == gk && unspill(s.Val) != ssa.Value(exp) {
+			if s.Fn == gk && bigObj(p, s.Val) != expObj {
 				bad = "the stored public number is not X"
 			}
 		}
 		for _, s := range p.Stores("common/uniformdh.PrivateKey", "privateKey") {
-			if s.Fn == gk && unspill(s.Val) != ssa.Value(sb) {
+			if s.Fn == gk && (bigObj(p, s.Val) != sbObj) {
 				bad = "the stored exponent is not the even one"
 			}
 		}
@@ -171,7 +241,10 @@ func c13UniformDH(c *Ctx, p *Prog) {
 				bad = "the shared secret buffer is " + l + " bytes, expected 192"
 			}
 			for _, r := range returnsOf(hf) {
-				if bufObjKey(r.Results[0]) != bufObjKey(fills[0].Common().Args[1]) {
+				if k, isC := r.Results[0].(*ssa.Const); isC && k.IsNil() {
+					continue // error return
+				}
+				if bufObjKey(r.Results[0]) != bufObjKey(fills[0].Common().Args[1]) && unspill(r.Results[0]) != ssa.Value(fills[0].(*ssa.Call)) {
 					bad = "Handshake does not return the filled buffer"
 				}
 			}
@@ -294,26 +367,15 @@ func c13Scan(c *Ctx, p *Prog) {
 	}
 	ff := p.Facts(fm)
 	// success return: pos != -1, pos <= 8194, Next(pos+len(magic))
+	bd := p.NewBounds()
 	for _, r := range ff.SuccessReturns() {
-		fs := ff.NC(r.Block())
-		okFound := hasFact(fs, func(f Fact) bool {
-			bo, ok := f.Cond.(*ssa.BinOp)
-			k, isK := intConst(bo2y(bo, ok))
-			return ok && unspill(bo.X) == ssa.Value(ix) && isK && k == -1 && ((bo.Op == token.EQL && !f.Pol) || (bo.Op == token.NEQ && f.Pol))
+		r := r
+		// proved from everything known at the return: 0 <= pos <= 8194
+		okRange, _ := bd.Prove(fm, r, func(s *scope, pr *proof) []Cons {
+			v := s.lin(ix, pr)
+			return []Cons{geC(v, 0), leC(v, 8194)}
 		})
-		okMax := hasFact(fs, func(f Fact) bool {
-			bo, ok := f.Cond.(*ssa.BinOp)
-			if !ok || unspill(bo.X) != ssa.Value(ix) {
-				return false
-			}
-			op := bo.Op
-			if !f.Pol {
-				op = negOp(op)
-			}
-			k, isK := intConst(bo.Y)
-			return isK && ((op == token.LEQ && k == 8194) || (op == token.LSS && k == 8195))
-		})
-		if !okFound || !okMax {
+		if !okRange {
 			bad = "success does not require the magic to be found within MAX_PADDING (8194) bytes"
 		}
 		okNext := false
@@ -321,23 +383,17 @@ func c13Scan(c *Ctx, p *Prog) {
 			if !instrDominates(nc, r) || !isFieldLoad(nc.Common().Args[0], tC, "rxBuf") {
 				continue
 			}
-			lc := p.newLin()
-			l := lc.Of(nc.Common().Args[1])
-			// pos + len(rxMagic)
-			if len(l.T) == 2 && l.C == 0 {
+			ncall, isCall := nc.(*ssa.Call)
+			if !isCall {
+				continue
+			}
+			// dropped = pos + len(magic searched for)
+			okEq, _ := bd.Prove(fm, ncall, func(s *scope, pr *proof) []Cons {
+				ml, _ := s.lenLin(a[1], pr)
+				return eq(s.lin(nc.Common().Args[1], pr), s.lin(ix, pr).Add(ml))
+			})
+			if okEq {
 				okNext = true
-				for name, co := range l.T {
-					rep := lc.rep[name]
-					if co != 1 {
-						okNext = false
-					}
-					if rep == ssa.Value(ix) {
-						continue
-					}
-					if lcall, _ := callOf(rep); lcall == nil || p.CalleeID(lcall.Common()) != "builtin:len" || !isFieldLoad(lcall.Common().Args[0], tC, "rxMagic") {
-						okNext = false
-					}
-				}
 			}
 		}
 		if !okNext {
@@ -484,6 +540,35 @@ func c13Handover(c *Ctx, p *Prog) {
 			}
 		}
 	}
+	// or: blob := make([]byte, padLen, ...); csrand.Bytes(blob); blob = append(blob, txMagic...)
+	for _, ap := range p.CallsIn(wr, "builtin:append") {
+		a := ap.Common().Args
+		if len(a) != 2 || !isFieldLoad(a[1], tC, "txMagic") {
+			continue
+		}
+		base := unspill(a[0])
+		var lenV ssa.Value
+		switch x := base.(type) {
+		case *ssa.MakeSlice:
+			lenV = x.Len
+		case *ssa.Slice:
+			if x.Low == nil && x.High != nil {
+				lenV = x.High
+			}
+		}
+		if lenV == nil {
+			continue
+		}
+		ic, _ := callOf(unspill(lenV))
+		if ic == nil || p.CalleeID(ic.Common()) != M("$M/common/csrand.IntRange") {
+			continue
+		}
+		for _, rb := range p.CallsIn(wr, "$M/common/csrand.Bytes") {
+			if unspill(rb.Common().Args[0]) == base && instrDominates(rb, ap) {
+				okCopy = true
+			}
+		}
+	}
 	if !okCopy && bad == "" {
 		bad = "the magic is not placed right behind the random padding"
 	}
@@ -492,4 +577,21 @@ func c13Handover(c *Ctx, p *Prog) {
 	} else {
 		ob.HoldNT("blob = random[padLen] | txMagic; txMagic = nil after a successful write")
 	}
+}
+
+// bigObj resolves a *big.Int value to the object it designates: big.Int
+// methods return their receiver.
+func bigObj(p *Prog, v ssa.Value) ssa.Value {
+	for i := 0; i < 16; i++ {
+		v = unspill(v)
+		c, ok := v.(*ssa.Call)
+		if !ok || !strings.HasPrefix(p.CalleeID(c.Common()), "(*math/big.Int).") || len(c.Common().Args) == 0 {
+			return v
+		}
+		if _, isPtr := c.Type().Underlying().(*types.Pointer); !isPtr {
+			return v
+		}
+		v = c.Common().Args[0]
+	}
+	return v
 }
